@@ -376,6 +376,14 @@ def build(w, cx, op, st):
     return inner.value if inner is not None else None
 
 
+def _rt(x):
+    """record type of a line (a harness-side read: a line made unreadable by an earlier call has none)"""
+    try:
+        return x.record_type
+    except Exception:
+        return None
+
+
 def api(g, cx, op, st):
     c, a, v = op["call"], op["arg"], op["val"]
     lo = cx.call("gfa.lines", lambda: g.lines)
@@ -408,7 +416,7 @@ def api(g, cx, op, st):
     elif c == "select_rt":
         rt = "HSLCPEGFOU#X"[op["li"] % 12]
         o = cx.call("gfa.select({'record_type': %r})" % rt, g.select, {"record_type": rt})
-        for x in list(g.lines)[:3]:
+        for x in list(lines)[:3]:
             o = cx.call("gfa.select(line)", g.select, x)
     elif c == "to_other":
         o = cx.call("gfa.to_gfa1_s/to_gfa2_s", lambda: (g.to_gfa1_s(), g.to_gfa2_s()))
@@ -507,7 +515,8 @@ def api(g, cx, op, st):
     elif c == "queries":
         # the query methods of segments, edges and the Gfa, given names and instances
         o = None
-        segs = list(g.segments)[:4]
+        sg = cx.call("gfa.segments", lambda: list(g.segments)[:4])
+        segs = sg.value if sg.ok else []
         for s in segs:
             for what, fn in (("oriented_relations", lambda: [s.oriented_relations("+", gfapy.OrientedLine(x, "+")) for x in segs]),
                              ("relations_to", lambda: [s.relations_to(x) for x in segs] + [s.relations_to(a)]),
@@ -517,7 +526,7 @@ def api(g, cx, op, st):
                              ("segment_connected_component", lambda: g.segment_connected_component(s.name)),
                              ("coverage", lambda: (s.coverage(), s.try_get_coverage()))):
                 o = cx.call("segment." + what, fn)
-        for e in [x for x in g.lines if x.record_type in ("L", "C", "E")][:4]:
+        for e in [x for x in lines if _rt(x) in ("L", "C", "E")][:4]:
             for what, fn in (("other(name)", lambda: [e.other(x.name) for x in segs] + [e.other(a)]),
                              ("other(instance)", lambda: [e.other(x) for x in segs]),
                              ("is_cut_link", lambda: g.is_cut_link(e)),
@@ -547,7 +556,7 @@ def api(g, cx, op, st):
         if o is None:
             return
     elif c == "grp.edit":
-        gs = [x for x in g.lines if x.record_type in ("O", "U")]
+        gs = [x for x in lines if _rt(x) in ("O", "U")]
         if not gs:
             return
         gr = gs[op["li"] % len(gs)]
@@ -563,7 +572,7 @@ def api(g, cx, op, st):
         cx.call("gfa.validate() after group edit", g.validate)
         cx.call("str(gfa) after group edit", str, g)
     elif c == "l.edge_setter":
-        es = [x for x in g.lines if x.record_type in ("E", "L", "C")]
+        es = [x for x in lines if _rt(x) in ("E", "L", "C")]
         if not es:
             return
         e = es[op["li"] % len(es)]
